@@ -27,6 +27,7 @@
 import Mhd.Proofs.SendProgress
 import Mhd.Proofs.SendUp
 import Mhd.Proofs.SendClose
+import Mhd.Proofs.SendCont
 
 namespace Mhd.C07
 open Mhd.Send Mhd.Gen.Send
@@ -281,6 +282,99 @@ theorem upload_hard_error_closes (u : Up) (e : Errno) (he : mapRecvErr e ≠ .ag
   simp only [hc, Bool.false_eq_true, if_false, hsp]
   cases hm : mapRecvErr e <;> first | exact absurd hm he | simp
 
+/-! ### The interim "100 Continue" message (CONTINUE_SENDING) as a send phase of its own
+
+  `Mhd.Model.SendCont`: handle_write sends the rest of the message from the ACCUMULATED offset
+  `continue_message_write_offset`, handle_idle switches to BODY_RECEIVING when the accumulated offset
+  equals the length.  The reply stream of an `Expect: 100-continue` exchange whose body is held
+  back is  interim message ++ final reply. -/
+
+/-- For EVERY fault script of the interim phase: what the socket took is a prefix of the interim
+    message — exactly the part before the accumulated offset —, no access behind the message; and
+    when the connection has moved on to BODY_RECEIVING exactly the message has been delivered. -/
+theorem interim_delivered_prefix (cs : List CRound) :
+    let c := contRun contInit cs
+    c.out <+: http100Continue ∧ c.fault = false ∧ c.off ≤ http100Continue.length ∧
+    (c.st ≠ .closed → c.out = http100Continue.take c.off) ∧
+    (c.st = .bodyReceiving → c.out = http100Continue) ∧
+    (c.st = .continueSending → c.off < http100Continue.length) := by
+  have h := contRun_inv cs contInit contInit_inv
+  exact ⟨h.pfx, h.nofault, h.le, h.out, h.complete, h.sending⟩
+
+/-- Transient faults (every short count, EAGAIN, EINTR, socket not writable) never close the
+    connection in the interim phase … -/
+theorem interim_transient_never_closes (cs : List CRound) (hx : ∀ x ∈ cs, x.transient) :
+    (contRun contInit cs).st ≠ .closed :=
+  (contRun_progress cs contInit contInit_inv (by decide) hx).1
+
+/-- … and never wedge it: every productive round moves the accumulated offset, so after more than
+    `|message| + 1` productive rounds — however interleaved with failures — the connection is in
+    BODY_RECEIVING and exactly the message went out. -/
+theorem interim_transient_delivers_all (cs : List CRound) (hx : ∀ x ∈ cs, x.transient)
+    (hn : http100Continue.length + 1 < countGoodC cs) :
+    (contRun contInit cs).st = .bodyReceiving ∧ (contRun contInit cs).out = http100Continue := by
+  have hp := contRun_progress cs contInit contInit_inv (by decide) hx
+  have hb : (contRun contInit cs).st = .bodyReceiving := by
+    rcases hp.2 with h | h
+    · exact h
+    · rw [cmu_init] at h; omega
+  exact ⟨hb, (contRun_inv cs contInit contInit_inv).complete hb⟩
+
+/-- the same for an infinite fair schedule (fairness: productive rounds keep coming) -/
+theorem interim_fair_completes (f : Nat → CRound) (hx : ∀ n, (f n).transient)
+    (fair : ∀ n, ∃ m, n ≤ m ∧ (f m).good) :
+    ∃ N, ∀ n, N ≤ n → (contRun contInit ((List.range n).map f)).st = .bodyReceiving ∧
+                      (contRun contInit ((List.range n).map f)).out = http100Continue := by
+  obtain ⟨N, hN⟩ := fair_reaches_c f fair (http100Continue.length + 2)
+  refine ⟨N, fun n hn => ?_⟩
+  have hmono := countGoodC_mono f N n hn
+  exact interim_transient_delivers_all _ (fun x hxm => by
+    obtain ⟨i, _, rfl⟩ := List.mem_map.mp hxm
+    exact hx i) (by omega)
+
+/-- a permanent error in the interim phase closes the connection, nothing of that call is sent,
+    and the final reply is never started (`exchangeOut`) -/
+theorem interim_hard_error_closes (c : Cont) (hs : c.st = .continueSending) (hle : c.off ≤ http100Continue.length)
+    (e : Errno) (he : Errno.isHard e) :
+    (contWrite c (.err e)).st = .closed ∧ (contWrite c (.err e)).out = c.out := by
+  unfold contWrite
+  rw [hs]
+  simp only []
+  rw [if_neg (by omega), sendData_err]
+  unfold Errno.isHard at he
+  cases hm : mapSendErr e <;> first | exact absurd hm he | simp [SendOut.fail]
+
+/-- The whole `Expect: 100-continue` exchange, for EVERY fault script of the interim phase and EVERY
+    fault script of the final reply: the bytes delivered are a prefix of
+    interim message ++ reply stream; the reply is started only after the complete interim message. -/
+theorem exchange_delivered_prefix (r : Resp) (hw : WF r) (allocStart : Bool) (cs : List CRound) (xs : List Round)
+    (hx : ∀ x ∈ xs, x.Legal) :
+    exchangeOut r allocStart cs xs <+: http100Continue ++ stream r := by
+  have hc := contRun_inv cs contInit contInit_inv
+  have hr := run_inv hw xs (startReply r allocStart) (start_inv hw allocStart) hx
+  unfold exchangeOut
+  simp only []
+  split
+  · rename_i hb
+    rw [hc.complete hb]
+    exact (List.prefix_append_right_inj _).mpr hr.pfx
+  · rw [List.append_nil]
+    exact List.IsPrefix.trans hc.pfx (List.prefix_append _ _)
+
+/-- Transient failures alone never change what such an exchange finally delivers: with fair
+    schedules for both phases, from some point on exactly  interim message ++ R  has been delivered. -/
+theorem exchange_fair_delivers_all (r : Resp) (hw : WFp r) (f : Nat → CRound) (g : Nat → Round)
+    (hf : ∀ n, (f n).transient) (hg : ∀ n, (g n).transient)
+    (fairf : ∀ n, ∃ m, n ≤ m ∧ (f m).good) (fairg : ∀ n, ∃ m, n ≤ m ∧ (g m).good) :
+    ∃ N M, ∀ n m, N ≤ n → M ≤ m →
+      exchangeOut r true ((List.range n).map f) ((List.range m).map g) = http100Continue ++ stream r := by
+  obtain ⟨N, hN⟩ := interim_fair_completes f hf fairf
+  obtain ⟨M, hM⟩ := transient_fair_delivers_all r hw g hg fairg
+  refine ⟨N, M, fun n m hn hm => ?_⟩
+  unfold exchangeOut
+  simp only []
+  rw [if_pos (hN n hn).1, (hN n hn).2, (hM m hm).2]
+
 /-! ### Non-vacuity -/
 
 /-- a chunked reply from a content reader, 7 body bytes, chunks of at most 3 -/
@@ -378,5 +472,32 @@ example : Permanent (run exResp (startReply exResp true) [{ s1 := .full }]) .ECO
 example : (upRun (upInit 8 [1, 2, 3] []) [.read (.data 3), .process 3]).remaining = 0 := by decide
 
 example : mapRecvErr .ECONNRESET ≠ .again ∧ ((Errno.EINTR).isEagain || (Errno.EINTR).isEintr) = true := by decide
+
+/-- the interim message cut after 10 bytes, then EAGAIN, then the rest: BODY_RECEIVING is reached and
+    exactly the message went out (the accumulated offset, not the count of one call, decides) -/
+example :
+    let cs : List CRound := [{ s := .short 10 }, { s := .err .EAGAIN }, { wr := false }, { s := .full }]
+    (∀ x ∈ cs, x.transient) ∧ (contRun contInit cs).st = .bodyReceiving ∧
+    (contRun contInit cs).out = http100Continue ∧ (contRun contInit cs).off = 25 := by decide
+
+def exFairC (n : Nat) : CRound := if n % 2 = 1 then { s := .short 1 } else { s := .err .EINTR }
+
+example : (∀ n, (exFairC n).transient) ∧ (∀ n, ∃ m, n ≤ m ∧ (exFairC m).good) := by
+  constructor
+  · intro n; unfold exFairC; split <;> decide
+  · intro n
+    refine ⟨2 * n + 1, by omega, ?_⟩
+    have : (2 * n + 1) % 2 = 1 := by omega
+    unfold exFairC; rw [if_pos this]; decide
+
+set_option maxRecDepth 8192 in
+/-- interim message in two pieces, then the final reply with a short combined header+body send -/
+example :
+    exchangeOut exResp2 true [{ s := .short 24 }, { s := .short 1 }] [{ s1 := .short 9 }, { s1 := .full }, { s1 := .full }]
+      = http100Continue ++ stream exResp2 := by decide
+
+/-- a reset inside the interim message: closed, the final reply is never started -/
+example : exchangeOut exResp2 true [{ s := .short 7 }, { s := .err .ECONNRESET }] [{ s1 := .full }] = http100Continue.take 7 := by
+  decide
 
 end Mhd.C07
